@@ -27,7 +27,7 @@ RULE = ("(a) registration sequences: every sequence of length <= 4 over the 10 r
         "generator-based or exit stacks, chosen per position from the seed.  (b) random manager trees of depth <= 4 "
         "mixing plain / generator-based (sync, async, yield from) managers and exit stacks, owned by a coroutine or a "
         "generator observed suspended in the body, suspended inside an async manager's exit, or running inside any "
-        "manager's exit.  distinct = distinct descriptors; non-trivial = the root frame holds a non-empty exit stack or a "
+        "manager's exit, including exit stacks observed in the middle of their own exit (a later callback running, earlier ones pending).  distinct = distinct descriptors; non-trivial = the root frame holds a non-empty exit stack or a "
         "generator-based manager, or is exiting")
 CONFIG = dict(
     coq=["C09"], level="proof",
@@ -45,7 +45,7 @@ CONFIG = dict(
                  "model (properties C01-C03); unwrap_context returns None for every manager type in scope (the hook loop is C11)",
                  "'identifying the registered manager or callable as obj' is read as: the manager; the function; for a bound "
                  "method its receiver; for callback / push_async_callback contextlib's _exit_wrapper whose __wrapped__ is the callable"],
-    unproved_legs=["an exit stack that is itself exiting (callbacks already popped) is not generated"],
+    unproved_legs=[],
     NOTES=("10 registration forms instead of 8 (push_async_exit split by argument type); push(bound method named __exit__) is "
            "treated as a further instance of F10 (contextlib stores the very same bound method as for enter_context); frames of "
            "contextlib itself and of the trap/probe helpers are dropped from the observed frame series before comparison."),
@@ -110,7 +110,10 @@ def gen_frm(rng, d, fk, on_path, body, mode):
             tail = ["deleg", gen_frm(rng, d - 1, "gen" if fk == "gen" else "coro", True, False, mode)]
         elif r < 0.75 and can_exit:
             a = can_async and (mode == "susp" or rng.random() < 0.5)
-            if rng.random() < 0.7:
+            r2 = rng.random()
+            if r2 < 0.35:
+                m = gen_exiting_stack(rng, d, a, mode)
+            elif r2 < 0.8:
                 m = {"t": "gen", "a": a, "f": rng.random() < 0.15,
                      "body": gen_frm(rng, d - 1, "agen" if a else "gen", True, True, mode)}
             else:
@@ -119,6 +122,23 @@ def gen_frm(rng, d, fk, on_path, body, mode):
     if body and on_path and fk == "gen" and mode == "susp":
         raise AssertionError("sync manager on the suspended path")
     return {"ws": ws, "tail": tail}
+
+
+def gen_exiting_stack(rng, d, a, mode):
+    """an exit stack observed in the middle of its own exit: pending callbacks + the popped, running one"""
+    cbs = [gen_cb(rng, d - 1, a, weights=(2, 5, 2)) for _ in range(rng.choice([1, 1, 2, 3]))]
+    cur_async = a and (mode == "susp" or rng.random() < 0.5)
+    r = rng.random()
+    if r < 0.5 and d > 0:
+        cur = {"k": "entera" if cur_async else "enter", "x": False,
+               "m": {"t": "gen", "a": cur_async, "f": False,
+                     "body": gen_frm(rng, d - 1, "agen" if cur_async else "gen", True, True, mode)}}
+    elif r < 0.7:
+        cur = {"k": "entera" if cur_async else "enter", "x": False, "m": _plain(cur_async)}
+    else:
+        kinds = ("pushafn", "acallback") if cur_async else ("pushfn", "callback")
+        cur = {"k": rng.choice(kinds), "x": False, "m": None}
+    return {"t": "stack", "a": a, "f": rng.random() < 0.1, "cbs": cbs, "cur": cur}
 
 
 def gen_tree_case(rng, depth):
@@ -181,6 +201,29 @@ def specials():
     exs = gcm(False, _frm([_wth(gcm(False))], ["deleg", _frm([_wth(_plain(False))])]))
     out.append({"root": _frm([_wth(_plain(False))], ["exit", _wth(exs)]), "mode": "run", "rk": "gen"})
     out.append({"root": _frm([_wth(_plain(True))], ["exit", _wth(copy.deepcopy(exs))]), "mode": "run", "rk": "coro"})
+    # exit stacks observed in the middle of their own exit; earlier registrations still pending
+    def pending(a):
+        leaf = lambda: gcm(False)
+        wrapper = gcm(False, _frm([_wth(leaf())]))
+        delegating = gcm(False, _frm([], ["deleg", _frm([_wth(leaf())])]))
+        nested = {"t": "stack", "a": False, "f": False, "cbs": [{"k": "enter", "x": False, "m": gcm(False, _frm([_wth(leaf())]))},
+                                                                 {"k": "callback", "x": False, "m": None}]}
+        cbs = [{"k": "enter", "x": False, "m": leaf()}, {"k": "enter", "x": False, "m": wrapper},
+               {"k": "enter", "x": False, "m": delegating}, {"k": "enter", "x": False, "m": nested},
+               {"k": "pushmeth", "x": False, "m": gcm(False)}, {"k": "enter", "x": False, "m": _plain(False)}]
+        if a:
+            cbs += [{"k": "entera", "x": False, "m": gcm(True, _frm([_wth(_plain(True))]))}, {"k": "acallback", "x": False, "m": None}]
+        return cbs
+    for mode, a, cur in (("run", False, {"k": "callback", "x": False, "m": None}),
+                         ("run", False, {"k": "enter", "x": False, "m": _plain(False)}),
+                         ("run", False, {"k": "enter", "x": False, "m": gcm(False, _frm([_wth(gcm(False))]))}),
+                         ("run", True, {"k": "pushfn", "x": False, "m": None}),
+                         ("susp", True, {"k": "acallback", "x": False, "m": None}),
+                         ("susp", True, {"k": "pushafn", "x": False, "m": None}),
+                         ("susp", True, {"k": "entera", "x": False, "m": _plain(True)}),
+                         ("susp", True, {"k": "entera", "x": False, "m": gcm(True, _frm([_wth(gcm(False))], ["deleg", _frm()]))})):
+        st = {"t": "stack", "a": a, "f": False, "cbs": pending(a), "cur": cur}
+        out.append({"root": _frm([_wth(gcm(False))], ["exit", _wth(st)]), "mode": mode, "rk": "coro" if a else "gen"})
     # exit stacks inside exit stacks inside generator-based managers
     deep = {"t": "stack", "a": True, "f": False, "cbs": [
         {"k": "enter", "x": False, "m": {"t": "stack", "a": False, "f": False, "cbs": [
@@ -260,7 +303,14 @@ def c_wth(w):
 
 def c_frm(f):
     t = f["tail"]
-    tail = "TStop" if t[0] == "stop" else ("(TDeleg %s)" % c_frm(t[1]) if t[0] == "deleg" else "(TExit %s)" % c_wth(t[1]))
+    if t[0] == "stop":
+        tail = "TStop"
+    elif t[0] == "deleg":
+        tail = "(TDeleg %s)" % c_frm(t[1])
+    elif t[1]["m"]["t"] == "stack" and t[1]["m"].get("cur") is not None:
+        tail = "(TExitS %s %s)" % (c_wth(t[1]), c_mgr(t[1]["m"]["cur"].get("m")))
+    else:
+        tail = "(TExit %s)" % c_wth(t[1])
     return "(Frm %s %s %s)" % (cnat(f["_id"]), clist([c_wth(w) for w in f["ws"]]), tail)
 
 
@@ -306,6 +356,11 @@ def exp_series(f, strict):
         cs.append(exp_ctx(w["m"], w["m"]["_oid"], w["a"], True, "RName" if w["n"] else "RUnderscore", [], None, strict))
         if w["m"]["t"] == "gen":
             rest = exp_series(w["m"]["body"], strict)
+        elif w["m"]["t"] == "stack" and w["m"].get("cur") is not None:
+            # a stack in the middle of exiting: the popped callback's manager is what is exiting now
+            cm = w["m"]["cur"].get("m")
+            if cm is not None and cm["t"] == "gen":
+                rest = exp_series(cm["body"], strict)
     elif t[0] == "deleg":
         rest = exp_series(t[1], strict)
     return [{"code": f["_id"], "cs": cs}] + rest
@@ -386,7 +441,7 @@ def classify(desc, obs):
         if m["t"] == "gen":
             return walk_f(m["body"], depth + 1)
         if m["t"] == "stack":
-            return max([depth + 1] + [walk_m(c.get("m"), depth + 1) for c in m["cbs"]])
+            return max([depth + 1] + [walk_m(c.get("m"), depth + 1) for c in m["cbs"] + ([m["cur"]] if m.get("cur") else [])])
         return depth
 
     def walk_f(f, depth):
@@ -400,6 +455,8 @@ def classify(desc, obs):
 
     labs.append("depth=%d" % min(walk_f(desc["root"], 0), 6))
     t = desc["root"]["tail"][0]
+    if t == "exit" and desc["root"]["tail"][1]["m"]["t"] == "stack":
+        t = "exit-stack(pending=%d)" % min(len(desc["root"]["tail"][1]["m"]["cbs"]), 4)
     labs.append("tail:" + t)
     ws = desc["root"]["ws"]
     if len(ws) == 1 and ws[0]["m"]["t"] == "stack":
